@@ -637,7 +637,7 @@ def check_property(prop, tier, seed, replay=None):
     bad_rows.sort(key=lambda t: (t[2], t[1]))
     for (row, im, isp, ms) in bad_rows[:400]:
         c, i, m, s = row
-        kf = [e for e in known if e.get('input') == c]
+        kf = [e for e in known if e.get('input') == c and e.get('impl') in (None, i)]
         if kf:
             for e in kf:
                 if e['id'] not in reported_known:
